@@ -23,7 +23,7 @@
 (*   ImportCa, Chain                           Import                       *)
 (*   Validate                                  PathValidation               *)
 (*   DnPush, DnRemove, DnEq, DnEncode          Names                        *)
-(*   KeyLoad, AlgTable, KeyXfer                KeyLife, Keys                *)
+(*   KeyLoad, KeyGen, AlgTable, KeyXfer        KeyLife, Keys                *)
 (*   StringRuns / Bytes / Multi / Place        Strings                      *)
 (*   Pem                                       Pem                          *)
 (*   Gen                                       Purity                       *)
@@ -105,6 +105,9 @@ ReqStringEv(ev) ==
               IN { <<"C13.transfer_encoding_eq", ev.obs.stored = Exp(ev.obs.ranges)>>,
                    <<"C13.accept_iff_in_alphabet", \A c \in ev.args.lo .. ev.args.hi :
                         (IsScalar(c) /\ InAlphabet(ev.args.type, c)) = (\E i \in DOMAIN ev.obs.ranges : ev.obs.ranges[i].lo <= c /\ c <= ev.obs.ranges[i].hi)>> }
+         [] ev.op = "StringViews" ->
+              { <<"C13.text_views_agree", ev.obs.asStr = ev.args.hex /\ ev.obs.asRef = ev.args.hex /\ ev.obs.display = ev.args.hex>>,
+                <<"C13.equality_with_text_iff_same_text", ev.obs.eqSame = <<TRUE, TRUE, TRUE, TRUE>> /\ ~ev.obs.eqOtherAny>> }
          [] ev.op = "StringBytes" ->
               { <<"C13.byte_ctor_accepts_iff_well_formed", ev.obs.acc = WellFormedBytes(ev.args.ctor, ev.args.bytes)>>,
                 <<"C13.byte_ctor_stores_input", ev.obs.acc => ev.obs.stored = ev.args.bytes>> }
@@ -180,6 +183,9 @@ ReqOf(ev) ==
      [] ev.op = "Channel" -> ReqChannel(ev.args, ev.obs)
      [] ev.op = "Builders" -> ReqBuilders(ev.args, ev.out, ev.obs)
      [] ev.op = "SerialApi" -> ReqSerialApi(ev.args, ev.obs)
+     [] ev.op = "CustomExtApi" -> ReqCustomExtApi(ev.args, ev.obs)
+     [] ev.op = "AcmeExtApi" -> ReqAcmeExtApi(ev.args, ev.obs)
+     [] ev.op = "MiscApi" -> ReqMiscApi(ev.obs)
      [] ev.op = "ParamsNew" -> ReqParamsNew(ev.args, ev.out, ev.obs)
      [] ev.op = "InsertEku" -> ReqInsertEku(ev.args, ev.obs)
      [] ev.op = "Zeroize" -> ReqZeroize(ev.obs)
@@ -197,7 +203,8 @@ ReqOf(ev) ==
      [] ev.op = "Chain" -> ReqChain(ev.args, ev.out, ev.obs)
      [] ev.op = "Pem" -> (IF ev.out = "Ok" THEN ReqPem(ev.args, ev.obs) ELSE {<<"C14.pem_produced", FALSE>>})
      [] ev.op \in {"KeyLoad", "AlgTable"} -> ReqKeyEv(ev)
-     [] ev.op \in {"StringRuns", "StringBlock", "StringBytes", "StringMulti", "StringPlace"} -> ReqStringEv(ev)
+     [] ev.op = "KeyGen" -> ReqKeyGen(ev.be, ev.args, ev.out, ev.obs)
+     [] ev.op \in {"StringRuns", "StringBlock", "StringViews", "StringBytes", "StringMulti", "StringPlace"} -> ReqStringEv(ev)
      [] ev.op \in {"DnPush", "DnRemove", "DnEq", "DnEncode"} -> ReqDnEv(ev)
      [] OTHER -> {})
 
